@@ -1,6 +1,8 @@
 package c13
 
 import (
+	"context"
+	"errors"
 	"fmt"
 	"runtime"
 	"sync"
@@ -40,6 +42,8 @@ func runOverlap(c overlapCase) *vh.Failure {
 		ok  bool
 		pan interface{}
 		err error
+		// early: what calls on the channel said right after this Close returned, if not "closed"
+		early string
 	}
 	results := make([]res, c.Closers)
 	var wg sync.WaitGroup
@@ -58,7 +62,15 @@ func runOverlap(c overlapCase) *vh.Failure {
 			} else {
 				ok, pan, _ = timed(8*time.Second, func() { err = ch.Close() })
 			}
-			results[i] = res{ok, pan, err}
+			results[i] = res{ok: ok, pan: pan, err: err}
+			// whichever call returns first: from that moment the channel is closed
+			if ok && pan == nil {
+				_, nerr := ch.NextPackage(context.Background(), false)
+				qerr := ch.QueuePackage(context.Background(), &tds.LanguagePackage{Cmd: "x"})
+				if !errors.Is(nerr, tds.ErrChannelClosed) || !errors.Is(qerr, tds.ErrChannelClosed) {
+					results[i].early = fmt.Sprintf("right after it returned (%v), NextPackage(wait=false) reports %v and QueuePackage reports %v", err, nerr, qerr)
+				}
+			}
 		}(i)
 	}
 	wg.Wait()
@@ -72,6 +84,9 @@ func runOverlap(c overlapCase) *vh.Failure {
 		}
 		if !r.ok {
 			return vh.Failf("C13/overlapping-close-blocks", "%+v: call %d (%s) did not return within 8 s", c, i+1, who)
+		}
+		if r.early != "" {
+			return vh.Failf("C13/close-returns-before-channel-is-closed", "%+v: call %d (%s): %s", c, i+1, who, r.early)
 		}
 	}
 	if f := afterClose(c13Case{Kind: fmt.Sprintf("overlapping closes %+v", c)}, e, ch, ch.VerifID()); f != nil {
